@@ -1385,7 +1385,20 @@ def check_wire_case(res: Result, loop: Any, scheme: str, host: str, port: int | 
         return
     full = dict(want)
     full["port"] = port
-    wire_check(res, loop, f"wire:{scheme}", scheme, str(u), host, full, rd)
+    if not wire_check(res, loop, f"wire:{scheme}", scheme, str(u), host, full, rd):
+        return
+    # the same TargetURI OBJECT used again (what reconnect() does): connecting must not consume or change what the URI says
+    ok, obj = call(G["TargetURI"], str(u))
+    if not ok:
+        return
+    before = (str(obj), dict(obj.qs_flat))
+    for nth in ("first", "second"):
+        if not wire_check(res, loop, f"wire:{scheme}|same-uri-object|{nth}-connect", scheme, obj, host, full, rd):
+            return
+        after = (str(obj), dict(obj.qs_flat))
+        if after != before:
+            res.violate(f"C20|wire:{scheme}|uri-object-changed-by-connect", f"{before[0]!r}: after connect() the TargetURI object reads {after!r}, before {before!r}", rd)
+            return
 
 
 def run_wire(res: Result, scheme: str, part: int) -> None:
